@@ -354,6 +354,13 @@ def check_class(name, rng, seed, n_samples=None, stats=None):
             P[id(v)] = np.zeros(dim)
             func.v = v
             order.append("v=0")
+    # point LABELS are not identities: every iterate may be called "x", or carry the automatic label of another sample
+    # (seed C15-12: class constraints memoised by the labels of the pair)
+    labelling = rng.choice([None, None, None, "same", "auto-collision"])
+    if labelling:
+        for k_, t_ in enumerate(func.list_of_points):
+            t_[0].set_name("x" if labelling == "same" else "Point_%d" % ((k_ + 1) % max(1, len(func.list_of_points))))
+        order.append("labels:" + labelling)
     func.set_class_constraints()
     # ConvexQGFunction / RsiEbFunction declare a stationary point themselves when none was recorded
     for xs, gs, fs in func.list_of_stationary_points:
